@@ -39,7 +39,7 @@ func optionTag(g *genReq) string {
 	var sb strings.Builder
 	for _, b := range bs {
 		p, _ := b.(M)["props"].(M)
-		fmt.Fprintf(&sb, "%s/%s/%s/%v/%v;", strOr(p, "ordering", ""), strOr(p, "referenceCriterionType", ""), strOr(subM(p, "applier"), "function", strOr(p, "function", "")),
+		fmt.Fprintf(&sb, "%s/%s/%s/%v/%v;", strOr(p, "ordering", ""), refTypeOf(p, ""), strOr(subM(p, "applier"), "function", strOr(p, "function", "")),
 			p["allowedValuesRangeScaling"], p["disallowNegativeValues"])
 	}
 	return sb.String()
@@ -125,6 +125,10 @@ func biasDriver(prop, focus string, nb func(c *caseCtx) int, tweak func(c *caseC
 		if method == "choquetIntegral" {
 			o.maxCrit = 5
 		}
+		if (prop == "C15" || prop == "C16") && c.rng.Intn(8) == 0 {
+			// importances that are distinct but closer than any "reasonable" epsilon, in no particular order
+			o.nearTiedW, o.minCrit = true, 3
+		}
 		g := genRequest(c.rng, o)
 		if tweak != nil {
 			tweak(c, g)
@@ -147,6 +151,25 @@ func biasDriver(prop, focus string, nb func(c *caseCtx) int, tweak func(c *caseC
 			is = append(is, issue{prop, "request-not-as-sent", "the bias works on other data than the request carries: " + msg})
 		} else if viaService {
 			st.add("request_received_as_sent", 1)
+		}
+		// the criteria the request declares reach the bias under test as declared (type, declared range): no earlier
+		// stage may have rewritten them
+		declared := map[string]critSpec{}
+		for _, cs := range g.crits {
+			declared[cs.id] = cs
+		}
+	declaredLoop:
+		for _, e := range d.Trace.Bias {
+			if e.Name != focus {
+				continue
+			}
+			for _, cr := range e.In.Crit {
+				if cs, ok := declared[cr.Id]; ok && (cs.cost != cr.Cost || cs.hasRng != cr.HasRng || (cs.hasRng && (cs.lo != cr.Lo || cs.hi != cr.Hi))) {
+					is = append(is, issue{prop, "declared-criterion-not-in-force", fmt.Sprintf("bias #%d %s receives criterion '%s' as %+v, the request declares cost=%v range=%v [%v,%v]", e.Pos, e.Name, cr.Id, cr, cs.cost, cs.hasRng, cs.lo, cs.hi)})
+					break declaredLoop
+				}
+			}
+			st.add("declared_criteria_in_force", 1)
 		}
 		// what the response finally shows as a bias's report is the report the bias returned (no later stage rewrote it)
 		if len(d.View.Biases) == len(d.Trace.Bias) {
